@@ -13,7 +13,9 @@ O: canary sweep: every registered function / method / operator / member / index
    form applied to a NON-yaqlized canary (bare and nested in list/dict) in every
    argument position with attack strings as the other arguments."""
 import collections
+import collections.abc
 import itertools
+import types
 import json
 import os
 import re
@@ -97,8 +99,68 @@ def exn_class(e):
 # rvalue = ["s", target] | ["t1", target] | ["t2", target, [[k, k'], ...]]
 # sargs  = {"attrs","methods","indexer","auto","white","black","remap":[[k, rvalue]...],"blr"}
 # ---------------------------------------------------------------------------
+class DynPred(object):
+    """a predicate that reads live host state: the set `granted`, which the harness edits BETWEEN evaluations
+    (entry ["d", i]; the objects are process-wide, shared by histories, engines, contexts and receivers)"""
+    def __init__(self):
+        self.granted = set()
+
+    def __call__(self, name):
+        return name in self.granted
+
+
+DYN = [DynPred(), DynPred(), DynPred()]
+DYN_BASE = 100            # model: EPred (DYN_BASE + i), truth table = the state at that step
+CUR_DYN = {}              # state used by the reference reading (spec_match) for the step being explained
+
+
+def set_dyn(state):
+    for i, d in enumerate(DYN):
+        d.granted = set((state or {}).get(str(i), (state or {}).get(i, ())))
+
+
 def entry_obj(e):
-    return {"s": lambda: e[1], "r": lambda: REGEXES[e[1]], "p": lambda: PREDS[e[1]], "j": lambda: JUNK[e[1]]}[e[0]]()
+    return {"s": lambda: e[1], "r": lambda: REGEXES[e[1]], "p": lambda: PREDS[e[1]], "j": lambda: JUNK[e[1]],
+            "d": lambda: DYN[e[1]]}[e[0]]()
+
+
+class ReIterable(object):
+    """a host container class: iterable any number of times, neither list nor set"""
+    def __init__(self, items):
+        self._items = list(items)
+
+    def __iter__(self):
+        return iter(self._items)
+
+    def __len__(self):
+        return len(self._items)
+
+
+class MappingView(collections.abc.Mapping):
+    def __init__(self, d):
+        self._d = dict(d)
+
+    def __getitem__(self, k):
+        return self._d[k]
+
+    def __iter__(self):
+        return iter(self._d)
+
+    def __len__(self):
+        return len(self._d)
+
+
+# every shape in which a host may hand over a whitelist / blacklist: the settings are the SET of the entries
+LIST_SHAPES = [
+    ("list", list), ("tuple", tuple), ("set", set), ("frozenset", frozenset),
+    ("dict_keys", lambda l: dict((x, None) for x in l).keys()),
+    ("generator", lambda l: (x for x in l)), ("map", lambda l: map(lambda x: x, l)),
+    ("filter", lambda l: filter(lambda x: True, l)), ("iter", lambda l: iter(l)),
+    ("reiterable", ReIterable), ("deque", collections.deque), ("reversed", lambda l: reversed(list(l))),
+    ("chain", lambda l: itertools.chain(l[:1], l[1:])), ("dict_values", lambda l: dict(enumerate(l)).values()),
+]
+REMAP_SHAPES = [("dict", dict), ("ordered", collections.OrderedDict), ("proxy", lambda d: types.MappingProxyType(dict(d))),
+                ("mapping", MappingView)]
 
 
 def rvalue_obj(v):
@@ -109,13 +171,28 @@ def rvalue_obj(v):
     return (v[1], dict((a, b) for a, b in v[2]))
 
 
-def kwargs_of(sa):
+def kwargs_of(sa, shape=None):
+    """shape: None (plain lists / dict, None when empty) or an index: whitelist, blacklist and remapping are
+    delivered in LIST_SHAPES[shape % n] / LIST_SHAPES[(shape // 3) % n] / REMAP_SHAPES[shape % m] (also when empty)"""
+    white = [entry_obj(e) for e in sa["white"]]
+    black = [entry_obj(e) for e in sa["black"]]
+    remap = dict((k, rvalue_obj(v)) for k, v in sa["remap"])
+    if shape is None:
+        white, black, remap = white or None, black or None, remap or None
+    else:
+        white = LIST_SHAPES[shape % len(LIST_SHAPES)][1](white)
+        black = LIST_SHAPES[(shape // 3) % len(LIST_SHAPES)][1](black)
+        remap = REMAP_SHAPES[shape % len(REMAP_SHAPES)][1](remap)
     return dict(yaqlize_attributes=sa["attrs"], yaqlize_methods=sa["methods"], yaqlize_indexer=sa["indexer"],
-                auto_yaqlize_result=sa["auto"],
-                whitelist=[entry_obj(e) for e in sa["white"]] or None,
-                blacklist=[entry_obj(e) for e in sa["black"]] or None,
-                attribute_remapping=dict((k, rvalue_obj(v)) for k, v in sa["remap"]) or None,
+                auto_yaqlize_result=sa["auto"], whitelist=white, blacklist=black, attribute_remapping=remap,
                 blacklist_remapped_attributes=sa["blr"])
+
+
+def shape_names(shape):
+    if shape is None:
+        return "plain"
+    return "%s/%s/%s" % (LIST_SHAPES[shape % len(LIST_SHAPES)][0], LIST_SHAPES[(shape // 3) % len(LIST_SHAPES)][0],
+                         REMAP_SHAPES[shape % len(REMAP_SHAPES)][0])
 
 
 def entry_term(e):
@@ -125,6 +202,8 @@ def entry_term(e):
         return gal.app("ERegex", gal.nat(e[1]))
     if e[0] == "p":
         return gal.app("EPred", gal.nat(e[1]))
+    if e[0] == "d":
+        return gal.app("EPred", gal.nat(DYN_BASE + e[1]))
     return "EJunk"
 
 
@@ -144,9 +223,9 @@ def yargs_term(sa):
         gal.lst(gal.pair(gal.s(k), rvalue_term(v)) for k, v in sa["remap"]), gal.boolean(sa["blr"]))
 
 
-def tables(names, settings_list=None):
+def tables(names, settings_list=None, dyn=None):
     """truth tables of the regex / predicate oracles on the given names (only the regexes /
-    predicates that occur in the given settings, when given)"""
+    predicates that occur in the given settings, when given); dyn: state of the dynamic predicates at this step"""
     names = sorted(set(names))
     rids, pids = range(len(REGEXES)), range(len(PREDS))
     if settings_list is not None:
@@ -155,6 +234,10 @@ def tables(names, settings_list=None):
         pids = sorted(set(e[1] for e in ents if e[0] == "p"))
     rt = [(i, [n for n in names if REGEXES[i].search(n) is not None]) for i in rids]
     pt = [(i, [n for n in names if PREDS[i](n)]) for i in pids]
+    if settings_list is not None:
+        for i in sorted(set(e[1] for e in ents if e[0] == "d")):
+            granted = set((dyn or {}).get(str(i), (dyn or {}).get(i, ())))
+            pt.append((DYN_BASE + i, [n for n in names if n in granted]))
     return rt, pt
 
 
@@ -190,6 +273,8 @@ def spec_match(n, e):
         return REGEXES[e[1]].search(n) is not None
     if e[0] == "p":
         return bool(PREDS[e[1]](n))
+    if e[0] == "d":
+        return n in set(CUR_DYN.get(str(e[1]), CUR_DYN.get(e[1], ())))
     return False
 
 
@@ -329,14 +414,17 @@ def routes_for(form, name):
     return r
 
 
-def attach(obj, sa, via, on_class=False):
+def attach(obj, sa, via, on_class=False, shape=None, deco=False):
     if sa is None:
         return
     target = type(obj) if on_class else obj
     if via:
-        yaqlization.yaqlize(target, **kwargs_of(sa))
+        if deco:
+            yaqlization.yaqlize(**kwargs_of(sa, shape))(target)       # decorator form
+        else:
+            yaqlization.yaqlize(target, **kwargs_of(sa, shape))
     else:
-        st = yaqlization.build_yaqlization_settings(**kwargs_of(sa))
+        st = yaqlization.build_yaqlization_settings(**kwargs_of(sa, shape))
         if on_class:
             setattr(target, yaqlization.YAQLIZATION_ATTR, st)
         else:
@@ -356,11 +444,14 @@ def members_touched(log, success):
     return out
 
 
-def run_single(sa, via, form, name, route, on_class=False):
+def run_single(sa, via, form, name, route, on_class=False, shape=None, deco=False):
     """-> (observation, anomaly or None).  observation = ('reach', m) | ('denied', class)"""
     log = []
     obj = make_probe(log, 0, None)
-    attach(obj, sa, via, on_class)
+    try:
+        attach(obj, sa, via, on_class, shape, deco)
+    except Exception as e:
+        return None, "yaqlize(...) rejected the arguments delivered as %s: %s: %s" % (shape_names(shape), type(e).__name__, str(e)[:80])
     ctx = base_context().create_child_context()
     ctx["obj"] = obj
     ctx["k"] = name
@@ -403,7 +494,7 @@ HEADER = "From YV Require Import Model.Yaqlized."
 
 
 def case_term(c, obs):
-    rt, pt = tables([c["name"]], [c["sargs"]])
+    rt, pt = tables([c["name"]], [c["sargs"]], c.get("dyn"))
     return ("{| c_regex := %s; c_pred := %s; c_via_yaqlize := %s; c_args := %s; c_form := %s; c_name := %s; c_obs := %s |}"
             % (table_term(rt), table_term(pt), gal.boolean(c["via"]),
                gal.opt(c["sargs"], yargs_term), FORM_TERM[c["form"]], gal.s(c["name"]), outcome_term(obs)))
@@ -503,10 +594,15 @@ def nontrivial(c):
 # C
 # ---------------------------------------------------------------------------
 def describe(c):
-    return {k: c[k] for k in ("sargs", "via", "form", "name", "route") if k in c}
+    d = {k: c[k] for k in ("sargs", "via", "form", "name", "route", "shape", "deco", "dyn") if k in c}
+    if c.get("shape") is not None:
+        d["delivered_as"] = shape_names(c["shape"])
+    return d
 
 
 def explain(c, obs, anomaly):
+    CUR_DYN.clear()
+    CUR_DYN.update(c.get("dyn") or {})
     st = spec_settings(c["sargs"], c["via"])
     want = spec_access(c["form"], st, c["name"])
     if obs is not None and obs[0] == "reach" and want[0] == "denied":
@@ -524,6 +620,8 @@ def explain(c, obs, anomaly):
 
 def report(run, c, obs, anomaly):
     kind, what = explain(c, obs, anomaly)
+    if anomaly and "rejected the arguments" in anomaly:
+        kind, what = "mismatch", anomaly
     st = spec_settings(c["sargs"], c["via"])
     run.fail(kind, what, {"case": describe(c), "observed": obs, "anomaly": anomaly,
                           "required": spec_access(c["form"], st, c["name"]),
@@ -553,7 +651,11 @@ def correspondence(run):
         if "route" not in c or c["route"] not in rts:
             c["route"] = rts[i % len(rts)]
         on_class = (i % 7 == 3)
-        obs, anomaly = run_single(c["sargs"], c["via"], c["form"], c["name"], c["route"], on_class)
+        if "shape" not in c:
+            c["shape"] = None if i % 4 == 0 else (i * 7 + i // 4) % (len(LIST_SHAPES) * 3 * len(REMAP_SHAPES))
+            c["deco"] = (i % 5 == 2)
+        obs, anomaly = run_single(c["sargs"], c["via"], c["form"], c["name"], c["route"], on_class, c["shape"], c.get("deco", False))
+        run.count("delivered:" + (shape_names(c["shape"]).split("/")[0] if c["sargs"] else "n/a"))
         run.case((c["sargs"], c["via"], c["form"], c["name"], c["route"]), nontrivial=nontrivial(c))
         run.count("form:" + c["form"])
         run.count("route:" + c["route"])
@@ -648,11 +750,15 @@ HISTORY_TEXT = {
 }
 
 
-def history_statement(h):
+ENGINE2 = yaql.YaqlFactory().create(options={"yaql.limitIterators": 1000})
+
+
+def history_statement(h, engine=None):
+    engine = engine or ENGINE
     tmpl = HISTORY_TEXT[(h["mode"], h["form"])]
     if h["form"] == "index" or (h["route"] == "text" and lexable(h["form"], h["name"])):
-        return ENGINE(tmpl % h["name"] if "%s" in tmpl else tmpl)
-    st = ENGINE(tmpl % "zzz")
+        return engine(tmpl % h["name"] if "%s" in tmpl else tmpl)
+    st = engine(tmpl % "zzz")
     substitute_name(st, h["name"])
     return st
 
@@ -690,21 +796,31 @@ def run_history(h):
         if r["sargs"] is not None:
             object.__setattr__(o, yaqlization.YAQLIZATION_ATTR, yaqlization.build_yaqlization_settings(**kwargs_of(r["sargs"])))
         objs.append(o)
-    st = history_statement(h)            # parsed ONCE
+    st = history_statement(h)            # parsed ONCE (once per engine when the history switches engines)
+    st2 = None
+    states = h.get("dyn_states") or []
     out = []
     if h["mode"] == "reeval":
         for i, o in enumerate(objs):
-            ctx = base_context().create_child_context()
+            # live host state read by the dynamic predicates: edited BETWEEN the evaluations
+            set_dyn(states[i] if i < len(states) else None)
+            env = (h.get("envs") or [0] * len(objs))[i] if i < len(h.get("envs") or [0] * len(objs)) else 0
+            stmt = st
+            if env in (2, 3):
+                st2 = st2 or history_statement(h, ENGINE2)
+                stmt = st2
+            ctx = (yaql.create_context() if env in (1, 3) else base_context()).create_child_context()
             ctx["obj"] = o
             ctx["k"] = h["name"]
             del log[:]
             try:
-                st.evaluate(context=ctx)
+                stmt.evaluate(context=ctx)
                 err = None
             except Exception as e:
                 err = e
             out.append(step_obs([x for x in log if x[0] == i], err, h["form"]))
         return out
+    set_dyn(states[0] if states else None)
     ctx = base_context().create_child_context()
     ctx["objs"] = objs
     ctx["k"] = h["name"]
@@ -765,9 +881,22 @@ def random_history(rng):
         sa = random_settings(rng)
         sa["remap"] = [kv for kv in sa["remap"] if kv[1][1] not in PROTO_ATTRS]
         return sa
-    return {"form": rng.choice(FORMS), "name": name, "route": rng.choice(["text", "tree"]), "mode": rng.choice(HISTORY_MODES),
-            "class_sargs": [st() if rng.random() < 0.3 else None, st() if rng.random() < 0.5 else None],
-            "receivers": [{"cls": rng.randrange(2), "sargs": st()} for _ in range(rng.randrange(2, 6))]}
+    h = {"form": rng.choice(FORMS), "name": name, "route": rng.choice(["text", "tree"]), "mode": rng.choice(HISTORY_MODES),
+         "class_sargs": [st() if rng.random() < 0.3 else None, st() if rng.random() < 0.5 else None],
+         "receivers": [{"cls": rng.randrange(2), "sargs": st()} for _ in range(rng.randrange(2, 6))]}
+    if rng.random() < 0.5:
+        # stateful predicates: a grant table / hidden set the host edits between evaluations; the receivers share the
+        # predicate OBJECTS (process-wide), steps may use another engine and / or a fresh context
+        for r in h["receivers"]:
+            if rng.random() < 0.7:
+                d = ["d", rng.randrange(len(DYN))]
+                r["sargs"] = rng.choice([S(white=[d]), S(black=[d]), S(white=[d, ["s", "other"]]), S(black=[d, ["r", 4]]),
+                                         S(white=[d], remap=[[name, ["s", "zed"]]], blr=False), S(black=[d], auto=True)])
+        n = len(h["receivers"])
+        pool = [name, "other", "zed"]
+        h["dyn_states"] = [dict((str(i), sorted(x for x in pool if rng.random() < 0.5)) for i in range(len(DYN))) for _ in range(n)]
+        h["envs"] = [rng.randrange(4) for _ in range(n)]
+    return h
 
 
 def history_terms(h, outs):
@@ -775,7 +904,9 @@ def history_terms(h, outs):
     for i, (obs, anomaly) in enumerate(outs):
         if obs is None or anomaly:
             continue
-        c = {"sargs": effective_sargs(h, h["receivers"][i]), "via": False, "form": h["form"], "name": h["name"]}
+        states = h.get("dyn_states") or []
+        dyn = (states[i] if i < len(states) else None) if h["mode"] == "reeval" else (states[0] if states else None)
+        c = {"sargs": effective_sargs(h, h["receivers"][i]), "via": False, "form": h["form"], "name": h["name"], "dyn": dyn or {}}
         terms.append(case_term(c, obs))
         meta.append((h, i, c, obs))
     return terms, meta
@@ -1203,7 +1334,8 @@ def replay(run, data):
     d = data.get("data", {})
     if "case" in d:
         c = d["case"]
-        obs, anomaly = run_single(c["sargs"], c["via"], c["form"], c["name"], c.get("route", "tree"))
+        obs, anomaly = run_single(c["sargs"], c["via"], c["form"], c["name"], c.get("route", "tree"), False,
+                                  c.get("shape"), c.get("deco", False))
         if anomaly or obs is None:
             return False
         return not run.coq_mismatches(HEADER, "case", "case_ok", [case_term(c, obs)])
